@@ -237,3 +237,13 @@ Proof.
   - rewrite <- H. apply listing_sorted.
   - now apply listing_fixpoint.
 Qed.
+
+(* the concatenation of a list of lists, read in another order, is a permutation of it *)
+Lemma perm_concat {A} (l l' : list (list A)) : Permutation l l' -> Permutation (concat l) (concat l').
+Proof.
+  induction 1 as [|x l l' _ IH|x y l|l l' l'' _ IH1 _ IH2]; simpl; auto.
+  - now apply Permutation_app_head.
+  - rewrite !app_assoc. apply Permutation_app_tail. apply Permutation_app_comm.
+  - eapply perm_trans; eauto.
+Qed.
+
